@@ -24,11 +24,13 @@ SETS = [
 # 0 = max(1, rest.len())   1 = 1 + 5 * popcount(rest[0] & 0x0f)
 VARLEN = {"TxFramesCtrlReqPayload": 0, "EchoIncPayloadReqPayload": 0, "EchoIncPayloadAnsPayload": 0,
           "McGroupStatusAnsPayload": 1}
-VARLEN_SRC = {  # the text each helper must still contain, else the translator refuses
-    "TxFramesCtrlReqPayload": ("certification.rs", "core::cmp::max(Self::min_len(), self.0.len())"),
-    "EchoIncPayloadReqPayload": ("certification.rs", "core::cmp::max(Self::min_len(), self.0.len())"),
-    "EchoIncPayloadAnsPayload": ("certification.rs", "core::cmp::max(Self::min_len(), self.0.len())"),
-    "McGroupStatusAnsPayload": ("multicast/group_status.rs", "1 + Self::required_len(self.0[0])"),
+MAXLEN_FORMS = ("core::cmp::max(Self::min_len(), self.0.len())", "core::cmp::max(self.0.len(), Self::min_len())",
+                "self.0.len().max(Self::min_len())", "Self::min_len().max(self.0.len())")
+VARLEN_SRC = {  # the len() helper of each payload type must still read as one of these forms, else the translator refuses
+    "TxFramesCtrlReqPayload": ("certification.rs", MAXLEN_FORMS),
+    "EchoIncPayloadReqPayload": ("certification.rs", MAXLEN_FORMS),
+    "EchoIncPayloadAnsPayload": ("certification.rs", MAXLEN_FORMS),
+    "McGroupStatusAnsPayload": ("multicast/group_status.rs", ("1 + Self::required_len(self.0[0])", "Self::required_len(self.0[0]) + 1")),
 }
 CONSTS = {"McAddr::BYTE_LEN": 4, "McKey::byte_len()": 16, "size_of::<u32>()": 4, "McGroupStatusItem::len()": 5}
 
@@ -75,8 +77,9 @@ def parse_table(src, name):
 
 def eval_expr(e, env):
     e = e.strip()
-    for k, v in list(CONSTS.items()) + list(env.items()):
+    for k, v in list(CONSTS.items()):
         e = e.replace(k, str(v))
+    e = re.sub(r"\b[A-Za-z_][A-Za-z0-9_]*\b", lambda m: str(env[m.group(0)]) if m.group(0) in env else m.group(0), e)
     if not re.fullmatch(r"[0-9+\-* ()]+", e):
         raise Untranslatable("index expression " + e)
     return eval(e)
@@ -95,19 +98,32 @@ def reads_of(srcs, payload):
     """ranges [a, b) (b = None for open-ended) that accessors read from self.0"""
     out = set()
     for src in srcs:
+        # module-level `const NAME: usize = <expr>;` (field offsets and the like), in file order
+        genv = {}
+        for c in re.finditer(r"^(?:pub(?:\([a-z]+\))?\s+)?const\s+(\w+)\s*:\s*usize\s*=\s*([^;]+);", src, re.M):
+            try:
+                genv[c.group(1)] = eval_expr(c.group(2), genv)
+            except Untranslatable:
+                pass
         for blk in impl_blocks(src, payload):
             # macro-generated readers
             for m in re.finditer(r"create_ack_fn!\(\s*\w+,\s*(\d+)\s*\)", blk):
                 out.add((0, 1))
             for m in re.finditer(r"create_value_reader_fn!\(\s*\w+,\s*(\d+)\s*\)", blk):
                 out.add((int(m.group(1)), int(m.group(1)) + 1))
-            for fn in re.finditer(r"fn\s+\w+[^{]*\{", blk):
+            fns = {}  # name -> (extra parameter names, body)
+            for fn in re.finditer(r"fn\s+(\w+)\s*\(([^)]*)\)[^{]*\{", blk):
                 j, depth = fn.end(), 1
                 while depth:
                     depth += {"{": 1, "}": -1}.get(blk[j], 0)
                     j += 1
-                body = blk[fn.end():j - 1]
-                env = {}
+                params = [q.split(":")[0].strip() for q in fn.group(2).split(",") if ":" in q and "self" not in q.split(":")[0]]
+                fns[fn.group(1)] = (params, blk[fn.end():j - 1])
+
+            called = set()
+
+            def body_reads(body, env):
+                env = dict(env)
                 for c in re.finditer(r"const\s+(\w+)\s*:\s*usize\s*=\s*([^;]+);", body):
                     env[c.group(1)] = eval_expr(c.group(2), env)
                 for ix in re.finditer(r"self\.0\[([^\]]+)\]", body):
@@ -126,6 +142,24 @@ def reads_of(srcs, payload):
                     else:
                         a = eval_expr(e, env)
                         out.add((a, a + 1))
+                # private helpers taking an index: read at each call site's constant arguments
+                for call in re.finditer(r"self\.(\w+)\(([^()]*)\)", body):
+                    if call.group(1) in fns and fns[call.group(1)][0]:
+                        ps, hb = fns[call.group(1)]
+                        args = [a for a in call.group(2).split(",") if a.strip()]
+                        if len(args) != len(ps):
+                            raise Untranslatable("call of helper " + call.group(0))
+                        called.add(call.group(1))
+                        henv = dict(genv)
+                        for q, a in zip(ps, args):
+                            henv[q] = eval_expr(a, env)
+                        body_reads(hb, henv)
+            for name, (params, body) in fns.items():
+                if not params:
+                    body_reads(body, genv)
+            for name, (params, body) in fns.items():
+                if params and "self.0[" in body and name not in called:
+                    raise Untranslatable("%s::%s indexes the payload with a parameter and no caller fixes it" % (payload, name))
     return sorted(out, key=lambda r: (r[0], -1 if r[1] is None else r[1]))
 
 
@@ -133,9 +167,16 @@ def generate():
     files = {}
     for f in ("maccommands.rs", "certification.rs", "multicast/mod.rs", "multicast/group_status.rs", "multicast/group_setup.rs"):
         files[f] = strip_comments(open(os.path.join(REPO, f)).read())
-    for p, (f, txt) in VARLEN_SRC.items():
-        if txt not in files[f]:
-            raise Untranslatable("len() helper of %s changed (expected `%s` in %s)" % (p, txt, f))
+    for p, (f, forms) in VARLEN_SRC.items():
+        body = None
+        for blk in impl_blocks(files[f], p):
+            m = re.search(r"pub fn len\(&self\) -> usize \{(.*?)\}", blk, re.S)
+            if m:
+                body = re.sub(r"\s+", " ", m.group(1)).strip()
+        if body is None or body not in forms:
+            raise Untranslatable("len() helper of %s changed (found `%s` in %s; expected one of %s)" % (p, body, f, list(forms)))
+        if f == "certification.rs" and not re.search(r"const fn min_len\(\) -> usize \{\s*1\s*\}", files[f]):
+            raise Untranslatable("min_len() of %s is no longer 1" % p)
     out = ["(* GENERATED by tools/rs2v/cmdtables.py from /repo/lorawan-encoding/src -- do not edit.",
            "   <set>_table : (cid, Some len | None (variable-length; helper kind in <set>_var)) in declaration order;",
            "   <set>_reads : per command, the index ranges [a, b) its payload accessors read (b = 0 encodes open-ended). *)",
